@@ -329,6 +329,7 @@ func (s *socket) setTransport(transport transports.Transport) {
 	transport.Once("error", onError)
 	transport.On("ready", onReady)
 	transport.On("packet", onPacket)
+	vhook.Yield("socket.setTransport.reading")
 	transport.On("drain", onDrain)
 	transport.Once("close", onClose)
 
